@@ -21,13 +21,14 @@ from lib import tlc  # noqa: E402
 from lib.evidence import Report, load_known  # noqa: E402
 
 
-def mc_protocol(wd, N, maxiter, live=False):
+def mc_protocol(wd, N, maxiter, live=False, jac=True):
     os.makedirs(wd, exist_ok=True)
     cfg = os.path.join(wd, 'PM.cfg')
+    J = 'TRUE' if jac else 'FALSE'
     if live:
-        tlc.write_cfg(cfg, spec='FairSpec', constants=dict(N=str(N), MAXITER=str(maxiter)), properties=['Terminates'], check_deadlock=True)
+        tlc.write_cfg(cfg, spec='FairSpec', constants=dict(N=str(N), MAXITER=str(maxiter), JAC=J), properties=['Terminates'], check_deadlock=True)
     else:
-        tlc.write_cfg(cfg, spec='Spec', constants=dict(N=str(N), MAXITER=str(maxiter)),
+        tlc.write_cfg(cfg, spec='Spec', constants=dict(N=str(N), MAXITER=str(maxiter), JAC=J),
                       invariants=['TypeOK', 'ScheduleIndependence', 'FinishInOrder', 'NoOrphan'], check_deadlock=True)
     return tlc.run_tlc('PfasstMPI', cfg, workers=8, timeout=3000, heap='12g')
 
@@ -187,7 +188,9 @@ def run(tier, seed):
     try:
         with mp.Pool(16) as pool:
             mcs = [('N=3 maxiter=2', (os.path.join(scratch, 'pm1'), 3, 2, False)), ('N=2 maxiter=3', (os.path.join(scratch, 'pm2'), 2, 3, False)),
-                   ('liveness N=2 maxiter=2', (os.path.join(scratch, 'pm3'), 2, 2, True))]
+                   ('liveness N=2 maxiter=2', (os.path.join(scratch, 'pm3'), 2, 2, True)),
+                   ('Gauss-Seidel N=3 maxiter=2', (os.path.join(scratch, 'pm7'), 3, 2, False, False)),
+                   ('Gauss-Seidel liveness N=2 maxiter=2', (os.path.join(scratch, 'pm8'), 2, 2, True, False))]
             if tier == 'thorough':
                 mcs += [('N=4 maxiter=2', (os.path.join(scratch, 'pm4'), 4, 2, False)), ('N=3 maxiter=3', (os.path.join(scratch, 'pm5'), 3, 3, False)),
                         ('liveness N=3 maxiter=2', (os.path.join(scratch, 'pm6'), 3, 2, True))]
